@@ -292,6 +292,9 @@ func (e *c09Env) script(ep *farm.Endpoint, src net.Addr, req []byte, seq uint64)
 		return nil
 	}
 	reply := echoReply(req)
+	if reply == nil {
+		return nil // (a request that has no reply - SetAddress - is never answered, whatever is planned for its serial number)
+	}
 	stray := func(i int) []byte {
 		b := append([]byte{}, reply...)
 		if i%2 == 0 {
@@ -1022,7 +1025,7 @@ func c09(c *Ctx) {
 				rr := gen.New(c.Seed, fmt.Sprintf("C09/leak/w%d", w), c.Batch)
 				for done.Add(1) <= int64(total) && !hung.Load() {
 					b := pool[rr.Pick(len(pool))]
-					s := uint32(0x22000000) + uint32(c.Batch)<<20 + uint32(w)<<14 + uint32(rr.Pick(1<<14))
+					s := uint32(0x22000000) + uint32(c.Batch)<<20 + uint32(w)<<14 + uint32(rr.Pick(1<<13)) // (the upper half of the worker's range is for second attempts)
 					res := e.run(b, s, workerIP(c, w)+":0")
 					if b.expect == "success" && res.err != "" && !res.hung {
 						// under parallel load a late wake-up of the client can eat the margin: confirm on a second attempt
